@@ -148,6 +148,10 @@ func c16Session(r *ev.Run, m *dyn.Model, shape c16shape, f c16fault, batch, idx 
 		// an endpoint list whose first entry nobody listens on: every (re)connection has to
 		// move on to the next endpoint
 		opts = []client.Option{client.WithEndpoint(fmt.Sprintf("unix:%s/c16dead-%d-%d.sock", dir, batch, idx)), client.WithEndpoint("unix:" + px.Listen), client.WithLogger(&l)}
+		if idx%8 == 1 {
+			// ... and the live endpoint in the middle of three
+			opts = append(opts, client.WithEndpoint(fmt.Sprintf("unix:%s/c16dead2-%d-%d.sock", dir, batch, idx)))
+		}
 		res.deadFirst = 1
 	}
 	if f.kind == "blackhole" {
